@@ -49,6 +49,52 @@ def variants(seed):
     return out
 
 
+COMPILE_TEMPLATE = """use crate::Tok;
+grammar(@PARAM@: u8);
+extern { type Location = usize; type Error = u8; enum Tok { "a" => Tok::A, "n" => Tok::N(<u8>), "+" => Tok::Plus, "," => Tok::Comma } }
+pub S: usize = { <@XS@:"a"*> <@Y@:E> => @XS@.len() + @PARAM@ as usize + @Y@ as usize };
+E: u8 = { <@L@:E> "+" <@R@:T> => @L@.wrapping_add(@R@), T };
+T: u8 = { "n", <@M@:("," <"n">)+> => @M@.len() as u8 };
+"""
+
+COMPILE_VARIANTS = [
+    # name, {placeholder: identifier}
+    ("orig", {"PARAM": "scale", "XS": "xs", "Y": "y", "L": "l", "R": "r", "M": "m"}),
+    ("under", {"PARAM": "__scale", "XS": "__xs", "Y": "__0", "L": "__1", "R": "__sym0", "M": "__nt"}),
+    ("internal", {"PARAM": "__lookahead", "XS": "__symbols", "Y": "__start", "L": "__end", "R": "__states", "M": "__tokens"}),
+    ("param_v", {"PARAM": "v", "XS": "xs", "Y": "y", "L": "l", "R": "r", "M": "m"}),
+    ("param_e", {"PARAM": "e", "XS": "xs", "Y": "y", "L": "l", "R": "r", "M": "m"}),
+    ("bind_v", {"PARAM": "scale", "XS": "v", "Y": "e", "L": "l", "R": "r", "M": "m"}),
+]
+
+
+def compile_stage():
+    """'renaming changes ... nor whether the output compiles': observed with rustc (not a solver verdict): the same grammar under
+    injective renamings of its grammar parameter and bindings must still be accepted and the generated module must still compile."""
+    import re
+    from vlib import common as K2
+    crate = K.NativeCrate("c25_compile")
+    mods, results = [], {}
+    for name, m in COMPILE_VARIANTS:
+        text = COMPILE_TEMPLATE
+        for k, v in m.items():
+            text = text.replace("@%s@" % k, v)
+        gen = K.run_generator(text, "cg_" + name)
+        results[name] = {"text": text, "accepted": gen.ok, "compiles": None, "out": gen.out[-600:]}
+        if gen.ok:
+            crate.write("cg_%s.rs" % name, gen.rs)
+            mods.append("#[allow(unused, non_snake_case)] mod cg_%s;" % name)
+    crate.write("main.rs", "#[derive(Clone, Debug, PartialEq)] pub enum Tok { A, N(u8), Plus, Comma }\n" + "\n".join(mods) + "\nfn main() {}\n")
+    exe, out = crate.build()
+    for name in results:
+        if results[name]["accepted"]:
+            errs = [l for l in out.splitlines() if re.search(r"-->\s*src/cg_%s\.rs" % name, l)]
+            results[name]["compiles"] = len(errs) == 0
+            m = re.search(r"(error\[E\d+\][^\n]*\n[^\n]*src/cg_%s\.rs[^\n]*)" % name, out)
+            results[name]["error"] = m.group(1) if m else ""
+    return results
+
+
 def run(tier):
     gs = variants(K.seed())
     known = K.load_known_findings().get(PID, {})
@@ -71,6 +117,34 @@ def run(tier):
         print("VIOLATION property=%s replay=%s" % (PID, path))
         print("  renamed grammar %s is rejected by the generator although the original is accepted: %s" % (g.name, msg))
     rc = SP.run_lang(PID, tier, SP.lang_jobs(keep, tier), ASSUME)
+    # compile differential on parameter / binding renamings (observed with rustc)
+    comp = compile_stage()
+    base_ok = comp["orig"]["accepted"] and comp["orig"]["compiles"]
+    if not base_ok:
+        print("INCONCLUSIVE: the un-renamed compile-stage grammar does not build: %s" % comp["orig"])
+        rc = max(rc, 2) if rc != 1 else 1
+    else:
+        for name, r in comp.items():
+            if name == "orig":
+                continue
+            if r["accepted"] and r["compiles"]:
+                continue
+            key = "compile:%s" % name
+            what = ("rejected by the generator (%s)" % r["out"].strip().splitlines()[-1:] if not r["accepted"] else "generated module does not compile: %s" % r["error"].replace("\n", " "))
+            if key in known:
+                print("KNOWN-FINDING: property=%s renaming %s of the parameter/bindings grammar: %s" % (PID, name, what))
+                continue
+            viol += 1
+            path = K.save_replay(PID, key.replace(":", "_"), {"grammar.lalrpop": r["text"], "original.lalrpop": comp["orig"]["text"], "result.txt": what})
+            print("VIOLATION property=%s replay=%s" % (PID, path))
+            print("  renaming %s: %s (the same grammar with ordinary names is accepted and compiles)" % (name, what))
+    import json, os
+    evp = os.path.join(K.VERIF, "evidence", PID + ".json")
+    ev = json.load(open(evp))
+    ev["coverage"]["compile_differential"] = {k: {"accepted": v["accepted"], "compiles": v["compiles"]} for k, v in comp.items()}
+    ev["assumptions"].append("compile differential (grammar parameter and bindings renamed into `__`-prefixed / internal-looking / `v`,`e` names): observed with rustc, not a solver verdict")
+    ev["violations"] = ev.get("violations", 0) + viol
+    json.dump(ev, open(evp, "w"), indent=1)
     return 1 if viol else rc
 
 
